@@ -172,7 +172,7 @@ def run_shard(desc) -> Acc:
             except BaseException as ex:  # noqa: BLE001
                 acc.violation("C17/setup/fault-free-application-connect-failed", repr(ex), {"version": V})
                 return
-            ez, ncp, app = ap.app._ezsp, ap.ncp, ap.app
+            ez, ncp, app = appharness.ezsp_of(ap.app), ap.ncp, ap.app
         else:
             st = await ncpsim.started(loop, V, acc, "C17")
             ez, ncp, app = st.ezsp, st.ncp, None
